@@ -139,6 +139,8 @@ mut("m20a_act_command_only", "C20", WRAP, "Some(terminal_data) => self.inner.set
 mut("m20b_act_update_first", "C20", WRAP, "        self.update_terminals()?;\n        match self\n            .terminal", "        self.update_terminals()?;\n        self.inner.update()?;\n        match self\n            .terminal")
 mut("m20c_enc_default_when_absent", "C20", WRAP, "            None => return Ok(()),\n            Some(state_datum) => state_datum,", "            None => Datum::new(Time(0), State::default()),\n            Some(state_datum) => state_datum,")
 mut("m20d_enc_negates", "C20", WRAP, "self.terminal.borrow_mut().set(new_state_datum)?;", "self.terminal.borrow_mut().set(-new_state_datum)?;")
+mut("m20g_enc_reads_before_update", "C20", WRAP, "        self.inner.update()?;\n        self.update_terminals()?;\n        let new_state_datum = match self.inner.get()? {\n            None => return Ok(()),\n            Some(state_datum) => state_datum,\n        };", "        let gotten = self.inner.get()?;\n        self.inner.update()?;\n        self.update_terminals()?;\n        let new_state_datum = match gotten {\n            None => return Ok(()),\n            Some(state_datum) => state_datum,\n        };", note="relays the previous reading; visible only when the inner getter's reading changes in its own update")
+mut("m15l_adapter_update_skips_clock", "C15", LIB, "        self.history.update()?;\n        self.time_getter.borrow_mut().update()?;\n        Ok(())", "        self.history.update()?;\n        Ok(())", note="clock never updated / its update error never propagated")
 mut("m20e_pid_clock_stuck", "C20", WRAP, "                *self.time.borrow_mut() = terminal_data.time;\n", "")
 mut("m20f_pid_cmd_after_update", "C20", WRAP, "                match terminal_data.command {\n                    Some(command) => self.command.borrow_mut().set(command)?,\n                    None => (),\n                }\n                self.pid.borrow_mut().update()?;", "                self.pid.borrow_mut().update()?;\n                match terminal_data.command {\n                    Some(command) => self.command.borrow_mut().set(command)?,\n                    None => (),\n                }")
 
